@@ -10,10 +10,17 @@ mods = [(m, m.split(".")[-1][:3]) for m in sorted(imported)] + sorted((m, pid) f
 for mod, pid in mods:
     src = open(os.path.join(ROOT, "lean", mod.replace(".", "/") + ".lean")).read()
     thms = []
-    pat = "Tie" if ".Tie" in mod else ("E2E_" + pid if (".E2E." in mod or ".E2E2." in mod) else pid)
+    pat = "Tie" if ".Tie" in mod else (r"E2E\d*_" + pid if re.search(r"\.E2E\d*\.", mod) else pid)
     for m in re.finditer(r"(/--(?:(?!-/).)*-/\s*)?theorem\s+(%s_\w+'?)" % pat, src, flags=re.S):
         doc = re.sub(r"\s+", " ", (m.group(1) or "").replace("/--", "").replace("-/", "")).strip()
-        thms.append(dict(name="Low." + m.group(2), module=mod, clause=doc[:300] or m.group(2)))
+        # the namespaces open where the theorem is declared
+        stack = []
+        for kw, x in re.findall(r"^(namespace|end)\s+(\S+)", src[:m.start()], flags=re.M):
+            if kw == "namespace":
+                stack.append(x)
+            elif stack and stack[-1] == x:
+                stack.pop()
+        thms.append(dict(name=".".join(stack + [m.group(2)]), module=mod, clause=doc[:300] or m.group(2)))
     mm = meta.get(pid, {})
     partial = [t["name"] for t in thms if "_partial" in t["name"]]
     if pid in reg:
